@@ -102,15 +102,21 @@ func c01Prop(k *verifkit.Kit) func(c c01Case) error {
 		}
 		nt := false
 		var classes []string
+		// every interface is prepared with its own system state first (as each
+		// advertiser does at start-up), then the RAs are built
+		for i := range cfg.Interfaces {
+			if !ref.Cfg.Interfaces[i].Monitor {
+				vkInject(&cfg.Interfaces[i], stFor(c.State, i), c02Epoch)
+			}
+		}
 		for i := range cfg.Interfaces {
 			ifi := &cfg.Interfaces[i]
 			ri := ref.Cfg.Interfaces[i]
 			if ri.Monitor {
 				continue
 			}
-			vkInject(ifi, c.State, c02Epoch)
 			before, _ := normaliseOpt(cfg, true)
-			want, wantErr := expectRA(ri, c.State, c02Epoch)
+			want, wantErr := expectRA(ri, stFor(c.State, i), c02Epoch)
 			var first string
 			for rep := 0; rep < max(c.Repeat, 1); rep++ {
 				ra, _, err := ifi.RouterAdvertisement(c.State.Fwd)
